@@ -4,7 +4,7 @@
    spec_case : what the implementation did is a true statement about the
                generated zone (Spec.v), whenever the records it was given
                are genuine records of that zone. *)
-From Sdns Require Export Common.Base Gen.C02 C02.Model C02.Spec.
+From Sdns Require Export Common.Base Gen.C02 C02.Model C02.ModelNsec3 C02.ModelCut C02.Spec.
 Open Scope N_scope.
 
 (* zone as generated: names leaf first, case as generated *)
@@ -33,9 +33,26 @@ Record nprobe := mk_nprobe {
   p_ags : aobs   (* NewAggressiveNSECSet + EvaluateAggressiveNSECSet *)
 }.
 
+(* one question against one NSEC3 record set; (error class, secure) for the ForZone verifiers *)
+Record probe3 := mk_probe3 {
+  q3 : name; q3type : N; q3class : N; q3dname : option (name * name);
+  o_ne : N * bool;   (* VerifyNameErrorForZoneWithWork *)
+  o_nd : N * bool;   (* VerifyNODATAForZoneWithWork *)
+  o_dl : N;          (* VerifyDelegationForZoneWithWork(q) *)
+  o_ag : aobs        (* EvaluateAggressiveNSEC3 *)
+}.
+
 Inductive case :=
   (* dnsname.CanonicalCompare a b (sign), dnsname.CompareSuffix a b, dnsutil.NameInZone(a, b) *)
 | CaseCmp (a b : name) (cmp : N) (shared : N) (inzone : bool)
+  (* NSEC3: zone, signer, records, positions kept by FilterRRsToZone, whether the aggressive
+     evaluator got the filtered slice, hash table (name -> hash rank), whether every record the
+     exact verifiers / the aggressive evaluator saw is a record of the zone's genuine NSEC3
+     chain (decided by the generator), probes *)
+| CaseNsec3 (z : rzone) (signer : name) (recs : list nsec3) (kept : list N) (prefilter : bool)
+            (tab : list (name * N)) (exact_judged aggr_judged : bool) (probes : list probe3)
+  (* subtree-cut cache: configured maximum TTL (s), history of record / clock advance / lookup *)
+| CaseCut (maxttl : Z) (ops : list cutop)
   (* zone the records were drawn from; signer handed to the code; records; positions kept by
      FilterRRsToZone; whether the aggressive evaluators got the filtered slice; the zone's class *)
 | CaseNsec (z : rzone) (signer : name) (recs : list nsec) (kept : list N) (prefilter : bool) (probes : list nprobe).
@@ -47,17 +64,114 @@ Definition reindex (l : list cnsec) : list cnsec :=
   (fix go (i : nat) (l : list cnsec) :=
      match l with [] => [] | r :: t => mk_cnsec (c_owner r) (c_next r) (c_types r) (c_class r) i :: go (S i) t end) O l.
 
+(* code 99 = "not part of this case": a probe on which the exact verifiers reproduce a known
+   finding is emitted twice, once with only the exact verdicts (tagged with the finding) and
+   once with only the aggressive ones, so that a listed finding never hides another failure *)
+Definition NOT_OBSERVED : N := 99.
+Definition code_ok (model observed : N) : bool := (observed =? NOT_OBSERVED) || (model =? observed).
+Definition aobs_ok (m o : aobs) : bool := (fst o =? NOT_OBSERVED) || aobs_eqb m o.
+
 Definition check_nprobe (signer : rname) (filtered aggr_in : list cnsec) (p : nprobe) : bool :=
   let qe := canon (effective_qname (p_q p) (p_dname p)) in
-  (err_code (verify_nameerror_nsec qe filtered) =? p_ne p) &&
-  (err_code (verify_nodata_nsec qe (p_qtype p) filtered) =? p_nd p) &&
-  (err_code (verify_delegation_nsec (canon (p_q p)) filtered) =? p_dl p) &&
-  aobs_eqb (aresult_obs (aggr_nsec qe (p_qtype p) (p_qclass p) signer aggr_in)) (p_ag p) &&
-  aobs_eqb (aresult_obs (aggr_nsec qe (p_qtype p) (p_qclass p) signer aggr_in)) (p_agp p) &&
-  aobs_eqb (aresult_obs (aggr_nsec_set qe (p_qtype p) (p_qclass p) signer aggr_in)) (p_ags p).
+  code_ok (err_code (verify_nameerror_nsec_cur qe filtered)) (p_ne p) &&
+  code_ok (err_code (verify_nodata_nsec_cur qe (p_qtype p) filtered)) (p_nd p) &&
+  code_ok (err_code (verify_delegation_nsec (canon (p_q p)) filtered)) (p_dl p) &&
+  aobs_ok (aresult_obs (aggr_nsec qe (p_qtype p) (p_qclass p) signer aggr_in)) (p_ag p) &&
+  aobs_ok (aresult_obs (aggr_nsec qe (p_qtype p) (p_qclass p) signer aggr_in)) (p_agp p) &&
+  aobs_ok (aresult_obs (aggr_nsec_set qe (p_qtype p) (p_qclass p) signer aggr_in)) (p_ags p).
+
+Definition vres_eqb (m : vres) (o : N * bool) : bool :=
+  (fst o =? NOT_OBSERVED) ||
+  ((err_code (fst m) =? fst o) && (negb (fst o =? 0) || Bool.eqb (snd m) (snd o))).
+
+Definition check_probe3 (signer : rname) (filtered aggr_in : list nsec3) (tab : htab) (p : probe3) : bool :=
+  let qe := canon (effective_qname (q3 p) (q3dname p)) in
+  vres_eqb (verify_nameerror_nsec3 qe (q3class p) filtered signer tab) (o_ne p) &&
+  vres_eqb (verify_nodata_nsec3 qe (q3type p) (q3class p) filtered signer tab) (o_nd p) &&
+  code_ok (err_code (verify_delegation_nsec3 (canon (q3 p)) filtered signer tab)) (o_dl p) &&
+  aobs_ok (aresult_obs (aggr_nsec3 qe (q3type p) (q3class p) signer aggr_in tab)) (o_ag p).
+
+Fixpoint keep_idx {A} (i : N) (kept : list N) (l : list A) : list A :=
+  match l with
+  | [] => []
+  | x :: t => if existsb (N.eqb i) kept then x :: keep_idx (i + 1) kept t else keep_idx (i + 1) kept t
+  end.
+Fixpoint idx_where {A} (f : A -> bool) (i : N) (l : list A) : list N :=
+  match l with
+  | [] => []
+  | x :: t => if f x then i :: idx_where f (i + 1) t else idx_where f (i + 1) t
+  end.
+
+Definition opt_name_eqb (a : option rname) (b : option name) : bool :=
+  match a, b with
+  | None, None => true
+  | Some x, Some y => rname_eqb x (canon y)
+  | _, _ => false
+  end.
+(* run a history on the model; true iff every observation is what the model computes.  The wire
+   lookup may decline (it is an accelerator), but when it answers it must agree. *)
+Fixpoint check_cut (maxttl now : Z) (st : list centry) (ops : list cutop) : bool :=
+  match ops with
+  | [] => true
+  | OpRecord m denied zone cu ok :: t =>
+      match cut_record maxttl now st m (canon denied) (canon zone) cu with
+      | Some st' => ok && check_cut maxttl now st' t
+      | None => negb ok && check_cut maxttl now st t
+      end
+  | OpAdvance s :: t => check_cut maxttl (now + s)%Z st t
+  | OpLookup q qclass cd found fw :: t =>
+      let r := cut_lookup now st (canon q) qclass cd in
+      opt_name_eqb r found &&
+      match fw with None => true | Some _ => opt_name_eqb (cut_lookup now st (canon q) qclass false) fw end &&
+      check_cut maxttl now st t
+  end.
+
+(* the specification, stated on the history alone: a lookup answers with a cut only if some
+   earlier accepted record for exactly that name and class, made from an NXDOMAIN, CD=0,
+   non-Opt-Out message with a complete signed proof, is still within every one of its TTL
+   bounds; never for CD=1 *)
+Definition record_admissible (m : cutmsg) (denied zone : rname) : bool :=
+  (cm_rcode m =? 3)%N && negb (cm_cd m) && negb (rname_eqb denied zone) && prefix_b zone denied &&
+  negb (existsb (fun p => f_nsec3 p && f_owner_in_zone p && f_optout p) (cm_proofs m)) &&
+  match cm_soa m with Some (sc, _, _, sg) => (cm_qclass m =? sc)%N && sig_counts sc sg | None => false end.
+Definition record_deadline (maxttl at_ : Z) (m : cutmsg) (cu : option Z) : Z :=
+  match cut_proof m with
+  | Some b => (at_ + min_bounds maxttl (b ++ match cu with Some c => [c - at_] | None => [] end))%Z
+  | None => at_
+  end.
+(* accepted records so far: (denied, class, admitted at, message, cut_until, zone) *)
+Fixpoint spec_cut (maxttl now : Z) (log : list (rname * N * Z)) (ops : list cutop) : bool :=
+  match ops with
+  | [] => true
+  | OpRecord m denied zone cu ok :: t =>
+      (negb ok || record_admissible m (canon denied) (canon zone)) &&
+      spec_cut maxttl now
+        (if ok then match cm_soa m with
+                    | Some (sc, _, _, _) => (canon denied, sc, record_deadline maxttl now m cu) :: log
+                    | None => log end
+         else log) t
+  | OpAdvance s :: t => spec_cut maxttl (now + s)%Z log t
+  | OpLookup q qclass cd found fw :: t =>
+      let ok1 (f : option name) (cdv : bool) :=
+        match f with
+        | None => true
+        | Some d => negb cdv && prefix_b (canon d) (canon q) &&
+                    existsb (fun e => rname_eqb (fst (fst e)) (canon d) && (snd (fst e) =? qclass)%N && (now <? snd e)%Z) log
+        end in
+      ok1 found cd && ok1 fw false && spec_cut maxttl now log t
+  end.
 
 Definition check_case (c : case) : bool :=
   match c with
+  | CaseCut maxttl ops => check_cut maxttl 0 [] ops
+  | CaseNsec3 z signer recs kept prefilter tab _ _ probes =>
+      let sg := canon signer in
+      (* FilterRRsToZone looks at the owner only *)
+      list_eqb N.eqb (idx_where (fun r => prefix_b sg (canon (r_zone r))) 0 recs) kept &&
+      let filtered := keep_idx 0 kept recs in
+      let aggr_in := if prefilter then filtered else recs in
+      let ctab := map (fun p => (canon (fst p), snd p)) tab in
+      forallb (check_probe3 sg filtered aggr_in ctab) probes
   | CaseCmp a b cmp shared inzone =>
       (cmp_sign (go_canonical_compare a b) =? cmp) &&
       (cmp_sign (ncmp (canon a) (canon b)) =? cmp) &&
@@ -94,8 +208,24 @@ Definition spec_nprobe (z : zone) (exact_ok aggr_ok : bool) (p : nprobe) : bool 
       spec_aobs z qe (p_qtype p) (p_qclass p) (p_agp p) &&
       spec_aobs z qe (p_qtype p) (p_qclass p) (p_ags p))).
 
+Definition spec_probe3 (z : zone) (exact_ok aggr_ok : bool) (p : probe3) : bool :=
+  let qe := canon (effective_qname (q3 p) (q3dname p)) in
+  if negb (prefix_b (z_apex z) qe) then true else
+  (negb exact_ok ||
+     (* an authenticated (secure) acceptance must be true; an Opt-Out based one claims nothing *)
+     ((negb ((fst (o_ne p) =? 0) && snd (o_ne p)) || ((q3class p =? zone_class) && negb (exists_in_b z qe))) &&
+      (negb ((fst (o_nd p) =? 0) && snd (o_nd p)) || ((q3class p =? zone_class) && nodata_true_b z qe (q3type p))) &&
+      (* an accepted insecure-delegation proof for an owner of the zone needs NS and neither DS nor SOA there *)
+      (negb (o_dl p =? 0) || negb (owner_b z (canon (q3 p))) || insecure_delegation_b z (canon (q3 p))))) &&
+  (negb aggr_ok || spec_aobs z qe (q3type p) (q3class p) (o_ag p)).
+
 Definition spec_case (c : case) : bool :=
   match c with
+  | CaseCut maxttl ops => spec_cut maxttl 0 [] ops
+  | CaseNsec3 rz signer recs kept prefilter tab exact_judged aggr_judged probes =>
+      let z := canon_zone rz in
+      if negb (zone_wf_b z && rname_eqb (canon signer) (z_apex z)) then true else
+      forallb (spec_probe3 z exact_judged aggr_judged) probes
   | CaseCmp a b cmp shared inzone =>
       (* antisymmetry and the subdomain reading are checked against the spec order *)
       (cmp_sign (ncmp (canon a) (canon b)) =? cmp) && Bool.eqb (prefix_b (canon b) (canon a)) inzone
